@@ -119,13 +119,15 @@ def fingerprint(o):
     if o is None: return ('N',)
     if isinstance(o, (bool, np.bool_)): return ('b', bool(o))
     if isinstance(o, Sym): return ('S', o.t)
+    if isinstance(o, np.generic) and not isinstance(o, (np.str_, np.bytes_)):
+        return ('np', o.dtype.name, fingerprint(o.item()))      # np.float64(1.0) is not the element 1.0 (nor 1, nor 1+0j)
     if isinstance(o, (int, np.integer)): return ('i', int(o))
     if isinstance(o, (float, np.floating)): return ('f', _fh(o))
     if isinstance(o, (complex, np.complexfloating)): return ('c', _fh(o.real), _fh(o.imag))
     if isinstance(o, str): return ('s', str(o))
     if isinstance(o, lib.UncertainReal):
         uid = o._node.uid if o.is_elementary else None
-        return ('ur', _fh(o.x), _fh2(lambda: o.u), _fh2(lambda: o.df), None if o.label is None else str(o.label), uid)
+        return ('ur', _fh(o.x), _fh2(lambda: o.u), _fh2(lambda: o.df), None if o.label is None else str(o.label), uid, bool(o.is_intermediate))
     if isinstance(o, lib.UncertainComplex):
         return ('uc', fingerprint(o.real), fingerprint(o.imag), _fh2(lambda: o.r), None if o.label is None else str(o.label))
     if isinstance(o, tuple):
@@ -221,6 +223,8 @@ def make_elem(spec):
     if k == 'ur': return core.ureal(spec[1], spec[2], spec[3] if spec[3] is not None else math.inf)
     if k == 'uc': return core.ucomplex(complex(spec[1], spec[2]), (spec[3], spec[4]), spec[5] if spec[5] is not None else math.inf)
     if k == 's': return str(spec[1])
+    if k == 'b': return bool(spec[1])
+    if k == 'np': return getattr(np, spec[1])(complex(spec[2], spec[3]) if len(spec) > 3 else spec[2])
     raise ValueError(spec)
 
 def make_array(kind, shape, elems, label):
@@ -297,6 +301,11 @@ class Impl(object):
         self.heap = []; self.reg = Registry(); self.rows = {}; self.expected = []; self.tainted = set()
         self.notes = {'broadcast': 0, 'stale_read': 0, 'read_after_broadcast': 0, 'exn': 0, 'steps': 0, 'cells': 0,
                       'noncontiguous_operand': 0, 'raising_broadcast': 0, 'read_after_raise': 0}
+        self.zip_scalar = {}              # step -> id of the converted scalar operand of a zip op
+        self.pure = set()                 # heap indices of plain ndarrays holding only plain numbers of mixed kinds
+        self.ranges = set()               # ... whose elements are 0..n-1 (can be passed as a range object)
+        self.seen_uids = set()            # uids of intermediate nodes seen in any array element (freshness of result())
+        self.result_failures = []         # element-level checks of result(array) that failed
         self.shape_at = {}                # step -> shape of the source of a view op
         self.views = set()                # heap indices of NumPy views / re-laid-out copies
         self.raised = set()               # heap indices of objects that dispatched a binary ufunc which raised
@@ -376,6 +385,8 @@ class Impl(object):
             lbl = op.get('label')
             if lbl is not None: self.reg.id(lbl)
             self.observe(('ok', make_array(op['kind'], op['shape'], elems, lbl)))
+            if op.get('pure'): self.pure.add(len(self.heap) - 1)
+            if op.get('range'): self.ranges.add(len(self.heap) - 1)
         elif k == 'bin':
             code = op['f']; x = self.operand(op['x']); y = self.operand(op['y'])
             A = self.op_cells(op['x']); B = self.op_cells(op['y'])
@@ -387,6 +398,13 @@ class Impl(object):
                 if ku: self.dispatched_bcast.add(ku[0])
             name = 'arctan2' if code == F_ATAN2 else BGEN.get(code) or BCMP.get(code)
             form = op.get('form', 'ufunc')
+            if form in ('tuple', 'range'):
+                def seq(o, v):
+                    if not (o[0] == 'A' and kind_of(v) == 'KN' and np.ndim(v) > 0 and v.dtype == object and v.size > 0): return v
+                    if form == 'range' and o[1] in self.ranges: return range(v.size)
+                    def tup(z): return tuple(tup(e) for e in z) if isinstance(z, list) else z
+                    return tup(v.tolist())
+                x = seq(op['x'], x); y = seq(op['y'], y)
             if form == 'list':       # pass a plain-ndarray operand as a nested list
                 # (a nested list cannot carry the shape of an array with a zero-length axis)
                 if op['x'][0] == 'A' and kind_of(x) == 'KN' and np.ndim(x) > 0 and x.dtype == object and x.size > 0: x = x.tolist()
@@ -428,6 +446,10 @@ class Impl(object):
             code = op['f']; a = self.heap[op['i']]; y = self.operand(op['y'])
             if bstate_of(a) != 'BNone': self.notes['stale_read'] += 1
             A = cells_of(a); B = self.op_cells(op['y'])
+            if op['y'][0] == 'S':
+                # sensitivity / u_component do np.asarray(scalar): a plain number reaches the element method as the NumPy scalar
+                # of the 0-d array (np.float64(2.5) for 2.5); that converted object is the scalar operand given to the model
+                B = list(np.asarray(y).flat); self.zip_scalar[len(self.expected)] = self.reg.id(B[0])
             for p, q in zip(A, B):
                 self.row(code, (p, q), guarded(scalar_bin, code, p, q))
             if code == F_SENS: r = guarded(reporting.sensitivity, a, y)
@@ -440,6 +462,7 @@ class Impl(object):
             A = cells_of(a); lab = op['labels']
             if lab is None:
                 for c in A: self.row(F_RES1, (c,), guarded(scalar_un, F_RES1, c))
+                pre = [(c, getattr(c, 'label', None)) for c in A]
                 r = guarded(core.result, a)
             else:
                 if isinstance(lab, str):
@@ -450,8 +473,13 @@ class Impl(object):
                     flat = list(np.asarray(lab).flat)
                 for c, l in zip(A, flat):
                     self.row(F_RES2, (c, str(l)), guarded(scalar_bin, F_RES2, c, str(l)))
-                r = guarded(core.result, a, lab)
+                pre = [(c, getattr(c, 'label', None)) for c in A]
+                r = guarded(core.result, a, tuple(lab) if op.get('lab_tuple') and isinstance(lab, list) else lab)
+            if lab is None: flat_l = [None] * len(A)
+            else: flat_l = [str(l) for l in flat]
             self.observe(r)
+            if r[0] == 'ok':
+                self.result_failures += check_result_elements(self, len(self.expected) - 1, pre, flat_l, cells_of(r[1]))
         elif k == 'copy':
             a = self.heap[op['i']]
             if bstate_of(a) != 'BNone': self.notes['stale_read'] += 1
@@ -475,6 +503,52 @@ class Impl(object):
         else:
             raise ValueError(k)
 
+# ----------------------------------------------------------------------------- what the elements of result(array) ARE
+def _vec(v):
+    return [(getattr(n, 'uid', n), _fh(x)) for n, x in zip(v._index, v._value)]
+
+def check_result_elements(impl, step, pre, labels, out):
+    """element k of result(array[, labels]) must be: the same object for a number / an elementary or already declared
+    uncertain number; otherwise a NEW declared intermediate (fresh uid) with the value, uncertainty, dof and component
+    vectors of operand element k, its own node appended to the intermediate components, and label labels[k]
+    (`<label>_re` / `<label>_im` on the components of an uncertain complex number).  Returns failure records."""
+    core, reporting, lib, la, ua = gtc_mods()
+    bad = []
+    def fail(k, msg): bad.append({'kind': 'result-element', 'step': step, 'index': k, 'what': msg})
+    def real(k, x, y, lbl, part=''):
+        if not isinstance(y, lib.UncertainReal): return fail(k, 'not an uncertain real%s: %r' % (part, type(y).__name__))
+        if x.is_elementary or x.is_intermediate:
+            if y is not x: fail(k, 'an elementary / declared number%s was not returned unchanged' % part)
+            return
+        if not y.is_intermediate or y.is_elementary: return fail(k, 'element%s is not a declared intermediate' % part)
+        if y.label != lbl and not (y.label is not None and lbl is not None and str(y.label) == lbl):
+            fail(k, 'label%s %r, expected %r' % (part, y.label, lbl))
+        if _fh(y.x) != _fh(x.x) or _fh2(lambda: y.u) != _fh2(lambda: x.u) or _fh2(lambda: y.df) != _fh2(lambda: x.df):
+            fail(k, 'value / uncertainty / dof%s differ from the operand element' % part)
+        if _vec(y._u_components) != _vec(x._u_components) or _vec(y._d_components) != _vec(x._d_components):
+            fail(k, 'component vectors%s differ from the operand element' % part)
+        own = (y._node.uid, _fh(y._node.u))
+        if sorted(_vec(y._i_components)) != sorted(_vec(x._i_components) + [own]):
+            fail(k, 'intermediate components%s are not the operand\'s plus the new node' % part)
+        if y._node.uid in impl.seen_uids: fail(k, 'uid%s %r is not fresh' % (part, y._node.uid))
+        impl.seen_uids.add(y._node.uid)
+    if len(out) < len(pre): return [{'kind': 'result-element', 'step': step, 'index': len(out), 'what': 'result has fewer elements than the operand'}]
+    for k, ((x, _), y) in enumerate(zip(pre, out)):
+        lbl = labels[k] if k < len(labels) else None
+        if k >= len(labels):
+            continue                                            # fewer labels than elements: covered by the model (cell stays None)
+        if isinstance(x, lib.UncertainReal):
+            real(k, x, y, lbl)
+        elif isinstance(x, lib.UncertainComplex):
+            if not isinstance(y, lib.UncertainComplex): fail(k, 'not an uncertain complex: %r' % type(y).__name__); continue
+            real(k, x.real, y.real, None if lbl is None else lbl + '_re', ' (real part)')
+            real(k, x.imag, y.imag, None if lbl is None else lbl + '_im', ' (imaginary part)')
+            if not (x.real.is_elementary or x.real.is_intermediate) and y.label != lbl and str(y.label) != str(lbl):
+                fail(k, 'label %r, expected %r' % (y.label, lbl))
+        elif isinstance(x, (numbers.Number, np.generic)) or x is None:
+            if y is not x and not (isinstance(x, numbers.Number) and y == x and type(y) is type(x)): fail(k, 'a pure number was not returned unchanged')
+    return bad
+
 # ----------------------------------------------------------------------------- Coq printing
 def cnat_list(xs): return '[' + '; '.join(str(int(v)) for v in xs) + ']'
 def czl(xs): return clist([cz(v) for v in xs])
@@ -495,7 +569,9 @@ def coq_op(op, impl, step=None):
         return '(OBin %s %s %s %s)' % (bk, cz(op['f']), coq_operand(op['x'], reg, impl.scalars), coq_operand(op['y'], reg, impl.scalars))
     if k == 'un': return '(OUn %s %d)' % (cz(op['f']), op['i'])
     if k == 'unb': return '(OUnB %s %d)' % (cz(op['f']), op['i'])
-    if k == 'zip': return '(OZip %s %d %s)' % (cz(op['f']), op['i'], coq_operand(op['y'], reg, impl.scalars))
+    if k == 'zip':
+        y = '(OS %s)' % cz(impl.zip_scalar[step]) if op['y'][0] == 'S' else coq_operand(op['y'], reg, impl.scalars)
+        return '(OZip %s %d %s)' % (cz(op['f']), op['i'], y)
     if k == 'result':
         lab = op['labels']
         if lab is None: l = 'LNone'
@@ -575,6 +651,13 @@ class Gen(object):
     def __init__(self, rng, mode):
         self.rng = rng; self.mode = mode; self.leaf = 0; self.shapes = []; self.kinds = []
 
+    def number(self):
+        """a plain number; a sequence of these has MIXED kinds, which NumPy would coerce to one dtype if it were asked to"""
+        rng = self.rng; self.leaf += 1; k = self.leaf
+        return rng.choice([['b', rng.random() < 0.5], ['i', rng.randint(-3, 3)], ['i', k], ['i', 2 ** 70 + k], ['f', round(rng.uniform(-2, 2), 2)],
+                           ['f', float(k)], ['c', float(rng.randint(0, 2)), float(rng.randint(-1, 1))], ['c', 0.5 * k, 0.0],
+                           ['np', 'float64', round(rng.uniform(0.1, 2), 2)], ['np', 'int64', rng.randint(1, 5)], ['np', 'float32', 0.5 * rng.randint(1, 5)]])
+
     def poison(self):
         """an element on which some scalar operations raise: None (TypeError), 0 / 0.0 (ZeroDivisionError, domain errors)"""
         # ... and NaN / inf, on which comparisons, maximum/minimum and isnan/isinf/isfinite take their special branches
@@ -616,12 +699,19 @@ class Gen(object):
             n = int(np.prod(s)) if s else 1
             elems = [self.elem() for _ in range(n)]
             if n and rng.random() < 0.3: elems[rng.randrange(n)] = self.poison()
-            ops.append({'op': 'new', 'kind': kind, 'shape': s, 'elems': elems,
-                        'label': rng.choice([None, 'lab%d' % j])})
+            op = {'op': 'new', 'kind': kind, 'shape': s, 'elems': elems, 'label': rng.choice([None, 'lab%d' % j])}
+            if kind == 'KN' and n and len(s) and rng.random() < 0.6:
+                # a plain sequence of pure numbers (passed to the ufuncs as nested list / tuple / range)
+                if len(s) == 1 and rng.random() < 0.15:
+                    op['elems'] = [['i', v] for v in range(n)]; op['range'] = True
+                else:
+                    op['elems'] = [self.number() for _ in range(n)]
+                op['pure'] = True
+            ops.append(op)
             self.shapes.append(s); self.kinds.append(kind)
         return {'mode': self.mode, 'scalars': scalars, 'ops': ops}
 
-def extend_program(rng, prog, impl_factory, nops):
+def extend_program(rng, prog, impl_factory, nops, profile='general'):
     """ops are chosen one at a time while the program runs on the implementation, so that operands always
     refer to objects that exist (the generator must know which steps raised)"""
     mode = prog['mode']
@@ -643,10 +733,50 @@ def extend_program(rng, prog, impl_factory, nops):
         def pick_any():
             if rng.random() < 0.75: return ['A', pick_ku()]
             if rng.random() < 0.5: return ['S', rng.randrange(len(prog['scalars']))]
+            pure = [j for j in impl.pure if j < len(heap)]
+            if pure and rng.random() < 0.5: return ['A', rng.choice(pure)]
             for _ in range(8):
                 j = rng.randrange(len(heap))
                 if j not in impl.tainted: return ['A', j]
             return ['A', pick_ku()]
+        def mk_result():
+            i = pick_ku(); a = heap[i]
+            # result(x, label) on an ELEMENTARY number assigns the label to that number (side effect on a leaf that other
+            # arrays share): in real mode labelled result() is only applied to arrays of computed / plain elements
+            ok = mode == 'sym' or not any(getattr(c, 'is_elementary', False) or
+                                          (hasattr(c, 'real') and getattr(getattr(c, 'real', None), 'is_elementary', False))
+                                          for c in cells_of(a))
+            q = rng.random(); o = {'op': 'result', 'i': i}
+            if not ok or q < 0.3: lab = None
+            elif q < 0.6: lab = 'r%d' % len(heap)
+            else:
+                n = len(cells_of(a)); u = rng.random()
+                m = n if u < 0.7 else max(1, n - 1) if u < 0.85 else n + 1          # matching, too few, too many labels
+                lab = ['m%d_%d' % (len(heap), j) for j in range(m)]
+                if rng.random() < 0.5 and np.ndim(a) >= 1 and len(lab) == n and n:
+                    lab = np.array(lab).reshape(np.shape(a)).tolist()
+                elif rng.random() < 0.4: o['lab_tuple'] = True
+            o['labels'] = lab
+            return o
+        if profile == 'result':
+            # result()-centred histories: computed arrays, views of every layout, then result() in every label form
+            q = rng.random()
+            if q < 0.45: op = mk_result()
+            elif q < 0.65:
+                src = ['A', pick_ku()]
+                op = {'op': 'view', 'i': src[1], 'how': rand_view(rng, list(np.shape(heap[src[1]])))}
+            elif q < 0.85:
+                x, y = ['A', pick_ku()], pick_any()
+                op = {'op': 'bin', 'f': rng.choice([50, 51, 52]), 'x': x, 'y': y, 'form': 'ufunc'}
+            elif q < 0.93: op = {'op': 'un', 'f': rng.choice([1, 2, 33, 34]), 'i': pick_ku(), 'form': 'ufunc'}
+            else: op = {'op': 'copy', 'i': pick_ku(), 'order': rng.choice([None, 'F'])}
+            if op['op'] == 'bin' and op['y'][0] == 'A':
+                try:
+                    if int(np.prod(np.broadcast_shapes(np.shape(heap[op['x'][1]]), np.shape(heap[op['y'][1]])))) > 48: continue
+                except ValueError:
+                    pass
+            prog['ops'].append(op); do(impl, op)
+            continue
         r = rng.random()
         if r < 0.10:
             src = pick_any()
@@ -662,13 +792,14 @@ def extend_program(rng, prog, impl_factory, nops):
                 x = ['A', pick_ku()]
             if x[0] == 'S' and y[0] == 'S': y = ['A', pick_ku()]
             form = rng.choice(['ufunc', 'ufunc', 'operator', 'list'])
+            if any(o[0] == 'A' and o[1] in impl.pure for o in (x, y)): form = rng.choice(['list', 'list', 'tuple', 'range', 'ufunc'])
             op = {'op': 'bin', 'f': code, 'x': x, 'y': y, 'form': form}
         elif r < 0.50:
             x, y = pick_any(), pick_any()
             if not any(o[0] == 'A' and kind_of(heap[o[1]]) == 'KU' for o in (x, y)):
                 y = ['A', pick_ku()]
             if x[0] == 'S' and y[0] == 'S': x = ['A', pick_ku()]
-            op = {'op': 'bin', 'f': F_ATAN2, 'x': x, 'y': y, 'form': rng.choice(['ufunc', 'list'])}
+            op = {'op': 'bin', 'f': F_ATAN2, 'x': x, 'y': y, 'form': rng.choice(['ufunc', 'list', 'tuple'])}
         elif r < 0.72:
             code = rng.choice(list(UN_UFUNC) + [23, 24] + list(VIEW) * 2)
             i = pick_ku(); form = rng.choice(['ufunc', 'core', 'operator', 'method'])
@@ -686,18 +817,7 @@ def extend_program(rng, prog, impl_factory, nops):
             y = ['A', pick_ku()] if (code == F_ATAN2 or rng.random() < 0.8) else ['S', rng.randrange(len(prog['scalars']))]
             op = {'op': 'zip', 'f': code, 'i': i, 'y': y}
         elif r < 0.91:
-            i = pick_ku(); a = heap[i]
-            ok = mode == 'sym' or not any(getattr(c, 'is_elementary', False) or
-                                          (hasattr(c, 'real') and getattr(getattr(c, 'real', None), 'is_elementary', False))
-                                          for c in cells_of(a))
-            q = rng.random()
-            if not ok or q < 0.35: lab = None
-            elif q < 0.7: lab = 'r%d' % len(heap)
-            else:
-                n = len(cells_of(a)); lab = ['m%d_%d' % (len(heap), j) for j in range(n if rng.random() < 0.8 else max(1, n - 1))]
-                if rng.random() < 0.5 and np.ndim(a) >= 1 and len(lab) == n and n:
-                    lab = np.array(lab).reshape(np.shape(a)).tolist()
-            op = {'op': 'result', 'i': i, 'labels': lab}
+            op = mk_result()
         elif r < 0.965:
             # copy() with every memory order, on C-ordered operands and on views (the order must not touch the contents)
             op = {'op': 'copy', 'i': pick_ku(), 'order': rng.choice([None, 'C', 'F', 'F', 'A', 'K'])}
@@ -721,7 +841,7 @@ def extend_program(rng, prog, impl_factory, nops):
         do(impl, op)
     return impl
 
-def gen_and_run(rng, mode, ctx=16):
+def gen_and_run(rng, mode, ctx=16, profile='general'):
     """one random program, executed on the implementation while it is generated;
     returns (prog, impl) or None if two different elements got the same fingerprint"""
     import signal
@@ -731,10 +851,78 @@ def gen_and_run(rng, mode, ctx=16):
     old = signal.signal(signal.SIGALRM, on_alarm)
     signal.setitimer(signal.ITIMER_REAL, 10.0)
     try:
-        impl = extend_program(rng, prog, lambda p: start(p, ctx), nops)
+        impl = extend_program(rng, prog, lambda p: start(p, ctx), nops, profile)
     except Ambiguous:
         return None
     finally:
         signal.setitimer(signal.ITIMER_REAL, 0)
         signal.signal(signal.SIGALRM, old)
     return prog, impl
+
+# ----------------------------------------------------------------------------- reusable correspondence drivers
+NOTE_KEYS = ('broadcast', 'stale_read', 'read_after_broadcast', 'exn', 'steps', 'cells', 'noncontiguous_operand',
+             'raising_broadcast', 'read_after_raise')
+
+def array_correspondence(rng, n, name, profile='general', p_sym=0.5, extra_terms=(), extra_meta=(), per_file=40):
+    """n random array histories of the given profile run on the implementation and through the Coq model (coqc,
+    vm_compute); returns the usual correspondence dict.  extra_terms are further closed Gallina terms of type Z."""
+    progs = []; terms = []; dist = {'mode': {}, 'ops': {}, 'rank': {}, 'outcome': {}, 'result_label_forms': {}}
+    notes = {k: 0 for k in NOTE_KEYS}; ambiguous = 0; distinct = set(); mism = []; res_checked = 0
+    while len(progs) < n:
+        mode = 'sym' if rng.random() < p_sym else 'real'
+        r = gen_and_run(rng, mode, profile=profile)
+        if r is None:
+            ambiguous += 1; continue
+        prog, impl = r
+        progs.append(prog); terms.append(coq_case(prog, impl))
+        dist['mode'][mode] = dist['mode'].get(mode, 0) + 1
+        nontrivial_result = False
+        for op in prog['ops']:
+            k = op['op'] + ('' if 'f' not in op else ':%d' % op['f'])
+            dist['ops'][k] = dist['ops'].get(k, 0) + 1
+            if op['op'] == 'new': dist['rank'][str(len(op['shape']))] = dist['rank'].get(str(len(op['shape'])), 0) + 1
+            if op['op'] == 'result':
+                lab = op['labels']
+                form = 'none' if lab is None else 'base string' if isinstance(lab, str) else \
+                       ('tuple' if op.get('lab_tuple') else 'nested list' if lab and isinstance(lab[0], list) else 'flat list')
+                dist['result_label_forms'][form] = dist['result_label_forms'].get(form, 0) + 1
+                res_checked += 1; nontrivial_result = True
+        for x, _ in impl.expected:
+            key = x[0] if x[0] != 'XExn' else x[1]
+            dist['outcome'][key] = dist['outcome'].get(key, 0) + 1
+        for k in notes: notes[k] += impl.notes[k]
+        for f in impl.result_failures:
+            mism.append(dict(f, program=prog))
+        if (impl.notes['broadcast'] and impl.notes['read_after_broadcast']) or impl.notes['noncontiguous_operand'] \
+           or impl.notes['read_after_raise'] or (profile == 'result' and nontrivial_result):
+            distinct.add(json.dumps([[o['op'], o.get('f'), o.get('how')] for o in prog['ops']] + [o['shape'] for o in prog['ops'] if o['op'] == 'new']))
+    extra_terms = list(extra_terms)
+    values, errors = coq_eval_cases(name, HEADER, terms + extra_terms, per_file=per_file)
+    for e in errors:
+        mism.append({'kind': 'coq-error', 'detail': e})
+    for i, v in enumerate(values):
+        if v is None or v == -1: continue
+        if i < len(progs):
+            mism.append({'kind': 'array-program', 'first_differing_step': v, 'program': progs[i]})
+        else:
+            mism.append({'kind': 'extra-term', 'meta': extra_meta[i - len(progs)] if i - len(progs) < len(extra_meta) else None, 'code': v})
+    dist['notes'] = notes; dist['ambiguous_discarded'] = ambiguous; dist['result_ops'] = res_checked
+    return {'programs': len(progs) + len(extra_terms), 'steps': notes['steps'], 'mismatches': mism, 'distinct': len(distinct),
+            'distribution': dist, 'samples': progs[:2]}
+
+def result_correspondence(rng, tier, name='C16res'):
+    """ONLY result()-centred array histories (for C06 as well as C16): 2-4 arrays of rank 0-3, computed (non-elementary)
+    arrays made by + - *, NumPy views of every memory layout (T, transpose, swapaxes, reversed / strided slices, Fortran
+    order, broadcast_to), then result(array) / result(array, 'base') / result(array, flat | nested | tuple of labels with
+    matching, too few or too many labels) and reads of the results.  Compared: the Coq model of UncertainArray._intermediate
+    (shape, C index order of elements and of the generated labels 'base[k]', exceptions) and, element by element on the
+    implementation, that each element IS a new declared intermediate (is_intermediate, fresh uid, label, value / u / dof and
+    component vectors of the operand's element, own node appended) or the unchanged object for numbers, elementary and
+    already declared uncertain numbers."""
+    n = 120 if tier == 'quick' else 3000
+    r = array_correspondence(rng, n, name, profile='result', p_sym=0.3, per_file=40 if tier == 'quick' else 200)
+    r['rule'] = ('result()-centred histories on shared array objects: computed arrays, views of every memory layout, every label '
+                 'form (none, base string, flat / nested / tuple sequences; matching, too few, too many labels); model comparison of '
+                 'shape / index order / labels / exceptions plus per-element checks (declared intermediate, fresh uid, label, value and '
+                 'component vectors equal to the operand element); non-trivial = contains a result() step')
+    return r
